@@ -892,6 +892,10 @@ class Interp:
             return Sym("uninit")
         if cn in ("std::vec::Vec::new", "alloc::vec::Vec::new", "std::vec::Vec::with_capacity"):
             return ListV([])
+        if cn in ("std::convert::From::from", "std::convert::Into::into") and len(args) == 1:
+            r = self.local_from(args[0], base_ty(self.F.ty(n) or ""))
+            if r is not None:
+                return r
         if cn in ("std::boxed::Box::new", "alloc::boxed::Box::new", "std::convert::From::from", "std::string::String::from", "std::convert::Into::into"):
             return self.as_string(args[0]) if cn.endswith("String::from") else args[0]
         if cn in ("std::string::ToString::to_string",):
@@ -902,6 +906,24 @@ class Interp:
         if f is not None:
             return self.call_fn(callee, args)
         return Unknown("call to " + cn)
+
+    def local_from(self, v, target):
+        """apply a local `impl From<S> for target` to v, if there is exactly one for v's type"""
+        src = self.type_of(v)
+        if src is None:
+            src = {bool: "bool", int: "i32", float: "f64"}.get(type(v))
+        if src is None or not target:
+            return None
+        if base_ty(src) == target:
+            return v
+        for imp in self.F.items["impls"]:
+            if imp.get("trait") in ("std::convert::From", "core::convert::From") and base_ty(imp["self_ty"]) == target:
+                tr = imp.get("trait_ref") or ""
+                if ("From<%s>" % src) in tr:
+                    for m in imp["methods"]:
+                        if m["name"] == "from":
+                            return self.call_fn(m["path"], [v])
+        return None
 
     def as_string(self, v):
         if isinstance(v, str):
@@ -933,6 +955,11 @@ class Interp:
         args = [self.ev(a, env) for a in n["args"]]
         if cn in self.models:
             return self.models[cn](self, [recv] + args)
+        # `x.into()` through a local `From<X> for Y` impl (Y is the type of the call expression)
+        if name == "into" and not args:
+            r = self.local_from(recv, base_ty(self.F.ty(n) or ""))
+            if r is not None:
+                return r
         # local function with a body
         f = self.F.fns.get(callee)
         if f is not None and "body" in f:
